@@ -278,7 +278,8 @@ class Metadata(CbMixin, ProgMixin):
         self.pieces = info.get("pieces", bytes())
         if self.meta_version == 2:
             tree = info["file tree"]
-            if list(tree) == [self.name] and "" in tree[self.name]:
+            if ("files" not in info and list(tree) == [self.name]
+                    and "" in tree[self.name]):
                 # single file torrent
                 self._parse_tree(tree, [])
             else:
